@@ -36,7 +36,7 @@ def mirror_table(rep, F, fn, sink_pat, rule='R-SIGN'):
     try:
         paths = TB.PathEnum(F, fn).run()
     except Undecided as e:
-        rep.undecided(rule, key, 'table not extractable: %s' % e, fn.where())
+        rep.undecided_anchor(rule, key, 'table not extractable: %s' % e, fn.where())
         return 0
     sign_t = call_term(paths, r'BigDecimal::sign$|BigInt::sign$')
     mode_t = call_term(paths, r'Context::rounding_mode$')
